@@ -477,3 +477,39 @@ fn check_search_best_result<const N: usize>() {
 fn l1b_search_best_result_n3() {
     check_search_best_result::<3>();
 }
+
+/// `search_best` as seen by the completeness obligations (C10/C11): every unreserved tree that the
+/// rating does not reject is accessed (in some order) until an access does not report Err(Memory).
+/// Justified by c16_search_best_n* (every acceptable candidate is tried when the fallback candidates
+/// fit into the buffer: here the tree array is not longer than the smallest buffer used, N = 3) and
+/// l1b_search_best_result_n3 (result = first access result that is not Err(Memory)). The near-search of
+/// `search_and_reserve` covers only part of the array in general; modelling it as complete only adds
+/// failing visits (which change nothing, see C0) before the global search that does cover everything.
+impl Trees<'_> {
+    pub(crate) fn search_best_complete<const N: usize, R>(
+        &self,
+        start: TreeId,
+        offset: usize,
+        len: usize,
+        rate: impl Fn(Class, usize) -> Policy,
+        access: impl Fn(TreeId) -> Result<R>,
+    ) -> Result<R> {
+        kani::assert(start.0 < (1usize << 62), "search_best precondition: start index does not overflow");
+        kani::assert(self.entries.len() <= 3, "completeness stub: the tree array fits into the smallest candidate buffer");
+        if offset >= len {
+            return Err(Error::Memory);
+        }
+        let mut i = 0;
+        while i < self.entries.len() {
+            let t = self.entries[i].load();
+            if !t.reserved() && rate(t.class(), t.free()) != Policy::Invalid {
+                match access(TreeId(i)) {
+                    Err(Error::Memory) => {}
+                    r => return r,
+                }
+            }
+            i += 1;
+        }
+        Err(Error::Memory)
+    }
+}
